@@ -61,6 +61,9 @@ type layoutCase struct {
 	CodeEmb bool     `json:"code_embedded,omitempty"` // the MsgType field lives inside the embedded struct
 	Shadow  bool     `json:"shadow,omitempty"`        // embedded fields carry the same Go names as outer fields (legal: the outer ones shadow them)
 	Fields  []lField `json:"fields"`
+	// Extra untagged exported fields (int, string, []byte, map) interleaved with the tagged ones: not part of the message,
+	// the codec must step over them in both directions
+	Extra int `json:"extra_untagged,omitempty"`
 }
 
 func parseLiteral(s string) (uint64, bool) {
@@ -144,6 +147,15 @@ func (c layoutCase) build() (reflect.Type, bool) {
 		}
 		top[embAt] = reflect.StructField{Name: "Inner", Type: reflect.StructOf(emb), Anonymous: true}
 	}
+	for j := 0; j < c.Extra; j++ {
+		typ := []reflect.Type{reflect.TypeOf(0), reflect.TypeOf(""), reflect.TypeOf([]byte(nil)), reflect.TypeOf(map[string]int(nil)), reflect.TypeOf(false), reflect.TypeOf(uint32(0))}[j%6]
+		tag := reflect.StructTag("")
+		if j%3 == 1 {
+			tag = `json:"note,omitempty"`
+		}
+		at := (j*7 + 3) % (len(top) + 1)
+		top = append(top[:at:at], append([]reflect.StructField{{Name: fmt.Sprintf("X%d", j), Type: typ, Tag: tag}}, top[at:]...)...)
+	}
 	var typ reflect.Type
 	ok := true
 	func() {
@@ -177,6 +189,9 @@ func describe(c layoutCase) string {
 		if f.Embedded {
 			sb.WriteString(" (embedded)")
 		}
+	}
+	if c.Extra > 0 {
+		fmt.Fprintf(&sb, "; +%d untagged fields", c.Extra)
 	}
 	sb.WriteString("}")
 	return sb.String()
@@ -288,6 +303,45 @@ func decide(c layoutCase) *rp.Fail {
 	}
 	if f := check(" after the input buffer was overwritten"); f != nil {
 		return f
+	}
+	// dirty target: decoding into a variable that already holds OTHER values returns the encoded values all the same
+	// (value kinds; a nil-tolerant pointer field whose bytes are 'no value' keeps what it had and is not judged)
+	{
+		zeroMsg := make([]byte, 64)
+		zeroMsg[0], zeroMsg[1] = enc[0], enc[1]
+		for _, f := range c.Fields {
+			if f.Kind == "u8fixed" {
+				zeroMsg[f.Off] = enc[f.Off]
+			}
+		}
+		fresh := reflect.New(typ)
+		if err := codec.Unmarshal(append([]byte(nil), zeroMsg...), fresh.Interface()); err == nil {
+			dirty := reflect.New(typ)
+			if err := codec.Unmarshal(append([]byte(nil), enc...), dirty.Interface()); err == nil {
+				if p := try(func() { err = codec.Unmarshal(append([]byte(nil), zeroMsg...), dirty.Interface()) }); p != nil || err != nil {
+					return rp.Failf(site+"/dirty-target", "layout %s: decoding the all-zero message into a variable that held other values failed: %v %v", describe(c), p, err)
+				}
+				for i, f := range c.Fields {
+					if f.Kind[0] == '*' {
+						continue
+					}
+					if g, w := fv.Canon(c.locate(dirty.Elem(), i)), fv.Canon(c.locate(fresh.Elem(), i)); g != w {
+						return rp.Failf(site+"/wrong-value/dirty-target", "layout %s: field %s@%d of the all-zero message decodes as %s into a fresh variable but as %s into a variable that held %s before", describe(c), f.Kind, f.Off, w, g, fv.Want(kindByName(f.Kind).typ, f.Val))
+					}
+				}
+				// and back: the message over the zero values
+				if err = codec.Unmarshal(append([]byte(nil), enc...), dirty.Interface()); err != nil {
+					return rp.Failf(site+"/dirty-target", "layout %s: decoding into a used variable failed: %v", describe(c), err)
+				}
+				keep := gotV
+				gotV = dirty.Elem()
+				if f := check(" (decoded into a variable that had been used before)"); f != nil {
+					f.Fingerprint = site + "/wrong-value/dirty-target"
+					return f
+				}
+				gotV = keep
+			}
+		}
 	}
 	// UnmarshalAs
 	var as any
@@ -460,6 +514,9 @@ func genLayout(t *rapid.T) layoutCase {
 	}
 	if len(c.Fields) == 0 {
 		c.Fields = []lField{{Kind: "u32", Off: 4, Val: fv.FV{U: 405419896}}}
+	}
+	if rapid.IntRange(0, 2).Draw(t, "untagged") == 0 {
+		c.Extra = rapid.IntRange(1, 4).Draw(t, "untagged.n")
 	}
 	c.CodeEmb = embed && rapid.Bool().Draw(t, "code.embedded")
 	c.Shadow = embed && rapid.IntRange(0, 2).Draw(t, "shadow") == 0
